@@ -396,6 +396,32 @@ def registry_facts(repo: Path):
             sites.append((rel.split("/")[-1] + ":" + (fns[-1].group(1) if fns else "?")))
     out.append("/-- every non-test call site of `set_status(ActorStatus::Stopped)`: file:enclosing fn -/")
     out.append(f"def stoppedCallSites : List String := {lean_strs(sites)}")
+    # wave 2 (Reg3.disc): who publishes >= Stopping, and on which thread of control
+    sites5 = []
+    for rel in ("ractor/src/actor.rs", "ractor/src/actor/actor_cell.rs", "ractor/src/thread_local/inner.rs",
+                "ractor/src/actor/actor_ref.rs", "ractor/src/actor/actor_properties.rs",
+                "ractor/src/thread_local.rs", "ractor/src/actor/derived_actor.rs"):
+        src = strip_comments(read(repo, rel))
+        for m in re.finditer(r"\.set_status\(\s*ActorStatus::Stopping\s*\)", src):
+            fns = list(re.finditer(r"\bfn\s+(\w+)", src[:m.start()]))
+            sites5.append((rel.split("/")[-1] + ":" + (fns[-1].group(1) if fns else "?")))
+    out.append("/-- every non-test call site of `set_status(ActorStatus::Stopping)`: file:enclosing fn -/")
+    out.append(f"def stoppingCallSites : List String := {lean_strs(sites5)}")
+    callers = []
+    for m in re.finditer(r"\bself\.cleanup\(", actor):
+        fns = list(re.finditer(r"\bfn\s+(\w+)", actor[:m.start()]))
+        callers.append(fns[-1].group(1) if fns else "?")
+    out.append("/-- `ActorLifecycleGuard::cleanup` is private and called from (methods of the guard, which is not `Clone`) -/")
+    out.append(f"def cleanupCallers : List String := {lean_strs(callers)}")
+    guard_decl = re.search(r"((?:#\[[^\]]*\]\s*)*)pub\(crate\)\s+struct\s+ActorLifecycleGuard\b", actor)
+    out.append(f"def lifecycleGuardIsClone : Bool := {str(bool(guard_decl and 'Clone' in guard_decl.group(1))).lower()}")
+    # the loop (whose last act is set_status(Stopping)) and `lifecycle.finish` run back to back in ONE spawned task
+    def loop_then_finish(src):
+        pat = r"async\s+move\s*\{(?:(?!async\s+move).)*?Self::processing_loop\((?:(?!async\s+move).)*?\.await(?:(?!async\s+move).)*?lifecycle\.finish\(evt\)\s*;"
+        return len(re.findall(pat, src, re.S)) == 1 and len(re.findall(r"lifecycle\.finish\(", src)) == 1 \
+            and len(re.findall(r"Self::processing_loop\(", src)) == 1
+    out.append("/-- `start` (Send and thread-local): one task runs `processing_loop(..).await` and then `lifecycle.finish(evt)`; no other call of either -/")
+    out.append(f"def loopThenFinishSameTask : List Bool := [{str(loop_then_finish(actor)).lower()}, {str(loop_then_finish(inner)).lower()}]")
     # spawn_linked_remote: the extra set_status(Stopped) comes after `start(...)` has returned an error
     body = fn_body(actor, "spawn_linked_remote") or ""
     i_start = body.find(".start(")
